@@ -160,6 +160,9 @@ def gen_program(rng: random.Random) -> dict:
             elif c < 0.78:
                 chars = ASCII_CHARS + ("\u00e9\u30a2\u00a9\u00df" if rng.random() < 0.2 else "") + ("\t\t  " if rng.random() < 0.3 else "")
                 t = "".join(rng.choice(chars) for _ in range(rng.choice([0, 1, 3, 16, 60])))
+                if rng.random() < 0.15:
+                    # text that reads like the raw-byte escape of .text: in .ascii it is text
+                    t += rng.choice(["HP [0x10] MP", "table[0x2A],x", "[0x41]", "[0x100]", "[0x"])
                 prog.append({"k": "ascii", "t": t})
                 expected += bytes(ord(c) for c in t if ord(c) < 128)     # a character without an ASCII byte emits nothing
             else:
